@@ -60,7 +60,7 @@ def displayLine (w indent : Nat) (l : List Nat) (clr : Bool := true) : List Tk :
     (if num > 0 then mv .cuf indent ++ [.el1] else []) ++
     (if ln.isEmpty then [] else [.text ln]) ++
     (if isLast && clr then [.el0] else []) ++
-    (if !isLast then (if atMargin then [] else [.el0]) ++ [.crlf] else [])).flatten
+    (if !isLast then (if atMargin then [.crlf, .el0] else [.el0]) ++ [.crlf] else [])).flatten
 
 def countNL (l : List Nat) : Nat := (l.filter (· = 10)).length
 
